@@ -1,6 +1,41 @@
 """Which properties are claimed, at what level, with which technique (source of MANIFEST.json)."""
 
 CLAIMS = {
+    "C02": {
+        "level": "proof",
+        "text": "Whole-function abstract interpretation of pydrex.core.derivatives (through its resolved callees) for all six fabrics, both "
+                "dislocation-type regimes and every slip-activity ordering yields exact rational-function normal forms of (dA, df) over "
+                "generic symbols; each is shown identical to an independently written reference of the published D-Rex equations by "
+                "normalisation (let-DAG unfolding, denominator clearing). Identities over generic symbols cover every orientation, velocity "
+                "gradient, volume vector and parameter value at once; the CRSS table and slip-system order are checked as tables. "
+                "Floating-point accuracy and JIT-vs-interpreted agreement are NOT decided (compiler/rounding).",
+        "note": "Trusted: the reference transcription in pdxsa/checks/drex.py (provenance: Kaminski & Ribe 2001, Kaminski et al. 2004, Fraters & "
+                "Billen 2021; cross-read against tools/drex_forward_simpleshear.f90), NumPy/Numba reference semantics over the reals, "
+                "uniformity of vectorised primitives in the grain count (N=2 quick, N=1..3 thorough). Exact ties in slip activity are excluded "
+                "as in the property.",
+        "technique": "algebraic abstract interpretation of the AST + normal-form identity against an independent reference model",
+    },
+    "C03": {
+        "level": "other",
+        "text": "On the same extraction as C02: skew spin (one S per grain, S+S^T=0), zero net volume change under sum f = 1, dead grains, "
+                "degree-one homogeneity in M* and phi with no other occurrence, mean-field factorisation (growth sign), and a division-guard "
+                "rule over every division site on the interpreted path (constant / positive parameter / dominated by a zero-excluding guard; "
+                "ordering-selected denominators need the all-keys-zero state excluded). All are decided as identities or structural facts for "
+                "every fabric x regime x ordering. Overflow for extreme parameters and 1e5-grain resource limits are NOT decided.",
+        "note": "Trusted: NumPy/Numba semantics over the reals; Numba's python error model for scalar division; parameter ranges n>0. The "
+                "olivine_C division by zero found by this rule was repaired (fix: commit e51a375).",
+        "technique": "algebraic abstract interpretation + form analysis of normal forms; path-fact (guard) analysis of division sites",
+    },
+    "C04": {
+        "level": "proof",
+        "text": "Invariance under ALL proper rotations is reduced to three Lie-derivative identities per output (generators of so(3), chain "
+                "rule through the let-DAG of the extracted rates): D_k(df)=0, D_k(dA)=dA·J_k^T, discharged exactly after a numeric "
+                "forward-mode screen; lattice two-folds by re-extraction with sign-flipped rows for grain subsets. Every fabric, both "
+                "dislocation regimes, every ordering. Integrated textures 'within solver tolerance' are NOT decided.",
+        "note": "Trusted: chain rules of the symbolic differentiator, connectedness of SO(3) and analyticity away from guard sets, NumPy/Numba "
+                "semantics over the reals. The frame-invariance of the driver's non-dimensionalisation is checked with the driver properties.",
+        "technique": "algebraic abstract interpretation + symbolic Lie derivative / substitution identities on normal forms",
+    },
     "C11": {
         "level": "proof",
         "text": "Every clause claimed is a polynomial identity over generic symbols, extracted from the source of pydrex.tensors by "
